@@ -150,6 +150,13 @@ func RunParent(prop, tier string, seed uint64, only string, onlyBatch int, exe, 
 	for _, r := range results {
 		done, last := agg.readChild(outDir, r.batch)
 		if done {
+			// A -race child that finished still exits 66 when the detector
+			// reported races; those reports are in its stderr file.
+			if r.exitErr != nil || chk.Race {
+				for _, v := range raceReports(filepath.Join(outDir, fmt.Sprintf("child_%d.err", r.batch)), r.batch, last) {
+					agg.Violations = append(agg.Violations, v)
+				}
+			}
 			continue
 		}
 		errText := readTail(filepath.Join(outDir, fmt.Sprintf("child_%d.err", r.batch)), 6000)
@@ -506,4 +513,63 @@ func RunReplay(path, exe, exeRace string) int {
 		rep.Case = "\x00none"
 	}
 	return RunParent(rep.Property, rep.Tier, rep.Seed, rep.Case, rep.Batch, exe, exeRace)
+}
+
+// raceReports turns the "WARNING: DATA RACE" blocks of a child's stderr into
+// violations, de-duplicated by the pair of first library frames of the two
+// accesses. A report without any library frame is a harness bug and gets the
+// signature race:harness.
+func raceReports(path string, batch int, lastCase string) []Violation {
+	b, err := os.ReadFile(path)
+	if err != nil || !bytes.Contains(b, []byte("WARNING: DATA RACE")) {
+		return nil
+	}
+	blocks := strings.Split(string(b), "WARNING: DATA RACE")[1:]
+	seen := map[string]bool{}
+	var out []Violation
+	for _, blk := range blocks {
+		if i := strings.Index(blk, "=================="); i >= 0 {
+			blk = blk[:i]
+		}
+		// first library frame of each access stack
+		var frames []string
+		for _, sec := range strings.Split(blk, "\n\n") {
+			if !(strings.Contains(sec, "Write at") || strings.Contains(sec, "Read at") || strings.Contains(sec, "Previous write at") || strings.Contains(sec, "Previous read at")) {
+				continue
+			}
+			f := ""
+			for _, l := range strings.Split(sec, "\n") {
+				l = strings.TrimSpace(l)
+				if strings.HasPrefix(l, "github.com/graphql-go/graphql") {
+					f = l
+					if k := strings.LastIndex(f, "("); k > 0 {
+						f = f[:k]
+					}
+					f = strings.TrimPrefix(f, "github.com/graphql-go/graphql")
+					break
+				}
+			}
+			frames = append(frames, f)
+		}
+		lib := false
+		for _, f := range frames {
+			if f != "" {
+				lib = true
+			}
+		}
+		sort.Strings(frames)
+		sig := "race:" + strings.Join(frames, "|")
+		if !lib {
+			sig = "race:harness"
+		}
+		if seen[sig] {
+			continue
+		}
+		seen[sig] = true
+		if len(blk) > 5000 {
+			blk = blk[:5000]
+		}
+		out = append(out, Violation{Sig: sig, Msg: "the race detector reported a data race", Case: lastCase, Batch: batch, Detail: map[string]interface{}{"report": blk}})
+	}
+	return out
 }
